@@ -150,6 +150,10 @@ def run(chk: Check) -> None:
     sw = [c for c in calls_in_func(sn, 'startswith')] + [c for n in ast.walk(sn.node) if isinstance(n, (ast.ListComp, ast.GeneratorExp)) for g in n.generators for i in g.ifs
                                                          for c in ast.walk(i) if isinstance(c, ast.Call) and last_name(c) == 'startswith']
     ok = len(slices) == 1 and bool(sw) and all(res_sn.text(slices[0].slice.lower) == f'len({res_sn.text(c.args[0])})' and norm(slices[0].value) == norm(c.func.value) for c in sw)
+    # (``rule.removeprefix(prefix)`` under ``rule.startswith(prefix)`` is the same cut)
+    rp = [c for n in ast.walk(sn.node) for c in [n] if isinstance(c, ast.Call) and last_name(c) == 'removeprefix' and len(c.args) == 1]
+    if not slices and len(rp) == 1 and sw:
+        ok = all(res_sn.text(rp[0].args[0]) == res_sn.text(c.args[0]) and norm(rp[0].func.value) == norm(c.func.value) for c in sw)
     chk.ob('SEG-exact-matching', sn, ok, 'a matching rule is passed down with exactly the matched prefix removed', kind='strip-prefix')
     # "with the source namespace's properties": WHICH properties travel is decided by reflection (is_mutable_property: a class-level property with a setter):
     # every option a namespace can be constructed with (other than its name) must be such a property, or absorb silently stops carrying it and refuses it
@@ -289,7 +293,8 @@ def run(chk: Check) -> None:
     ok = len(sets) == 1 and isinstance(sets[0].args[2], ast.Call) and norm(sets[0].args[2].func) == f'{optvar}.pop'
     if ok:
         av = norm(sets[0].args[1])
-        ok = [norm(a) for a in sets[0].args[2].args] == [av, f'getattr({src}, {av})']
+        from ..rules import Resolver as _Rp
+        ok = [norm(_Rp(ab).expand(a)) for a in sets[0].args[2].args] == [av, f'getattr({src}, {av})']   # (the source's value possibly named first)
     chk.ob('PROV-namespace-options', ab, ok, 'every mutable property takes the override from namespace_options if given, else the source namespace\'s value', node=sets[0] if sets else None, kind='pop-with-source-default')
     guard = [t for t in cfg.nodes if t.kind == 'test' and 'is_mutable_property' in norm(t.ast.test)]
     chk.ob('PROV-namespace-options', ab, len(guard) == 1, 'only mutable properties of PortNamespace are copied', kind='mutable-properties')
@@ -302,14 +307,28 @@ def run(chk: Check) -> None:
            'absorb reports the names it absorbed', kind='reports-absorbed')
     # _expose_ports
     ab_call = [c for c in calls_in_func(ep, 'absorb')]
-    ok = len(ab_call) == 1 and [norm(a) for a in ab_call[0].args[:3]] == ['source', 'exclude', 'include'] and len(ab_call[0].args) == 4
-    if ok and norm(ab_call[0].args[3]) != 'namespace_options':
-        # the options may travel through a local that stands for "the given options, or none": every value it can hold is the parameter
-        # itself (or a copy of it) or, where the parameter is None, an empty mapping
-        from ..rules import conditional_values as _cv
-        from ..facts import is_none as _is_none
-        vals_ = _cv(chk.ctx.facts.analyse(ep), norm(ab_call[0].args[3])) if isinstance(ab_call[0].args[3], ast.Name) else []
-        ok = bool(vals_) and all(norm(v) in ('namespace_options', 'dict(namespace_options)') or (norm(v) in ('{}', 'dict()') and _is_none(fs, 'namespace_options')) for fs, v in vals_)
+    from ..rules import conditional_values as _cv
+    from ..facts import is_none as _is_none
+    _fe = chk.ctx.facts.analyse(ep)
+
+    def _options_ok(c) -> bool:
+        """the fourth argument is the options parameter (or a copy), or an empty mapping exactly where the parameter is None -- held in a local, decided by a
+        conditional expression on the spot, or by the branch the call stands in"""
+        if [norm(a) for a in c.args[:3]] != ['source', 'exclude', 'include'] or len(c.args) != 4:
+            return False
+        a3 = c.args[3]
+        if norm(a3) in ('namespace_options', 'dict(namespace_options)'):
+            return True
+        cases = []
+        if isinstance(a3, ast.Name):
+            cases = _cv(_fe, a3.id)
+        elif isinstance(a3, ast.IfExp):
+            cases = [(frozenset(_fe.cond_atoms(a3.test, True)), a3.body), (frozenset(_fe.cond_atoms(a3.test, False)), a3.orelse)]
+        elif norm(a3) in ('{}', 'dict()'):
+            cases = [(fs, a3) for _, fs in _fe.site_facts(c)]
+        return bool(cases) and all(norm(v) in ('namespace_options', 'dict(namespace_options)') or (norm(v) in ('{}', 'dict()') and _is_none(fs, 'namespace_options')) for fs, v in cases)
+    # (one call, or one per branch of "options given?")
+    ok = len(ab_call) in (1, 2) and all(_options_ok(c) for c in ab_call) and len({norm(c.func) for c in ab_call}) == 1
     chk.ob('PROV-namespace-options', ep, ok, 'expose_* hands source, exclude, include and namespace_options to absorb unchanged', node=ab_call[0] if ab_call else None, kind='passed-through')
     efs = chk.ctx.facts.analyse(ep)
     from ..rules import conditional_values
@@ -323,6 +342,8 @@ def run(chk: Check) -> None:
     from ..rules import Resolver
     res_ep = Resolver(ep)
     ok = len(mem) == 1 and len(ab_call) == 1 and res_ep.text(mem[0].value) == res_ep.text(ab_call[0])   # the value remembered is what absorb returned (directly or through a local)
+    ok = ok or (len(mem) == 1 and len(ab_call) == 1 and mem[0].value is ab_call[0])
+    ok = ok or (len(mem) == len(ab_call) == 2 and all(any(m_.value is c for c in ab_call) for m_ in mem))   # (one store per branch of "options given?")
     chk.ob('PROV-namespace-options', ep, ok, 'what was absorbed is remembered per (namespace, process class)', kind='memory')
     for q, srcexpr, dst, memo in (('process_spec.ProcessSpec.expose_inputs', 'process_class.spec().inputs', 'self.inputs', 'self._exposed_inputs'),
                                   ('process_spec.ProcessSpec.expose_outputs', 'process_class.spec().outputs', 'self.outputs', 'self._exposed_outputs')):
